@@ -6,8 +6,8 @@
 (*   Mode = "universe": cases come from the TLA+-defined universe below (sharded like MC_MapDenote).              *)
 (*   Mode = "file":     cases are descriptions of seeded random pipelines read from IOEnv.CASE_FILE (ndjson:      *)
 (*                      {id, desc, inputs, order}); the same laws and the same export.                            *)
-(*   Mode = "same":     no cases; SameUniverse states that the universe below IS the C01 universe restricted to   *)
-(*                      inputs of rank <= 2 (evaluated once, printed).                                            *)
+(*   Mode = "same":     one dummy case; SameUniverse states that the universe below IS the C01 universe           *)
+(*                      restricted to inputs of rank <= 2 (evaluated once, printed by EmitSame).                  *)
 EXTENDS XarrayLabels, MC_MapDenote, IOUtils
 CONSTANTS MinSize, Mode
 
@@ -17,8 +17,9 @@ XCases   == UNION {UNION {{[a |-> aa, b |-> bb, oax |-> oo, ipos |-> ip, multi |
                               oo \in Perms(SetToSeq(Named(aa) \cup Named(bb))), ip \in 0..4, mu \in BOOLEAN, co \in Consumers} :
                           bb \in BSpecs} : aa \in XASpecs}
 XSizeMaps(c) == [AxesUsed(c) -> MinSize..MaxSize]
+(* the generator cases of MC_MapDenote (there: shard 0 only); here part of every shard, they carry load_intermediate *)
 GenCases == {[desc |-> GenDesc(co), inputs |-> <<<<"s", Atom("@s")>>>> \o (IF co = "zipnew" THEN <<<<"c", InputArr("c", <<2>>)>>>> ELSE <<>>)] :
-                co \in (IF Shard = 0 THEN {"none", "elementwise", "full", "zipnew"} ELSE {})}
+                co \in {"none", "elementwise", "full", "zipnew"}}
 XUniverseAll == UNION {{[desc |-> DescOf(c), inputs |-> InputsOf(c, sz)] : sz \in XSizeMaps(c)} : c \in {cc \in XCases : CaseOK(cc)}}
                 \cup GenCases
 XUniverse == UNION {{[desc |-> DescOf(c), inputs |-> InputsOf(c, sz)] : sz \in XSizeMaps(c)} : c \in {cc \in XCases : CaseOK(cc) /\ InShard(cc)}}
